@@ -70,10 +70,55 @@ CLAIM = {
              "(camtImport) under the hypothesis (camtImport_field_order_static: e.g. when besides domain codes no element has "
              "more than one field); C13_import_full_false - the unconditional statement is FALSE (F14: a Viseca/camt element "
              "with two interacting fields), at the level of the whole extractor. "
-             "NOT proved: the Viseca importer as a whole command (it calls the same extract; import_field_order applies to it), "
-             "the YAML / CSV / XML decoding in front of the importers, the loader / parser / price-db "
-             "reader in front of process, re-layouts at a finer grain than one posting inside the relayout model "
-             "(the congruence theorems themselves hold per operation), and that the model is the binary. "
+             "FROM FILE CONTENTS (Lemmas/C13Front.lean, restated at the end of Props/C13.lean): the entry list of the command theorems is "
+             "what the loader model (Model/Load.lean: Loader::load, includes, globs, cycle check) delivers when every file is parsed "
+             "by the parser model (Load.parseFS over Model/Parse.lean), so the commands are functions of a file system of TEXTS T, "
+             "the loader's recursion fuel, the root path, the text of the price db (report::process reads it with std::fs, not "
+             "through the loader) and the flags. The parser model has no order parameter; the loader model has exactly one - the "
+             "order in which FileSystem::glob enumerates the matches of an include (FakeFileSystem iterates a HashMap, the real one "
+             "a directory) - and load_impl sorts it away: C13_sort_paths (the sorted list is the same for every enumeration because "
+             "Ord for PathBuf is a total order: pathLe_antisymm), C13_load_file (same callback sequence, entries tagged with their "
+             "files, same status, for every enumeration order of every glob). The composition with book-keeping follows "
+             "report::process: the callback runs accum.process entry by entry, its first failure (tagged with the file of the "
+             "offending entry) ends the load, otherwise the loader's own error (IO, parse error, recursive include, glob) is "
+             "returned, and only after a successful load do the price db, the query and the printing run (C13Front.gate). "
+             "C13_balance_file, C13_register_file, C13_accounts_file, C13_balance_exchange_file, C13_eval_file: for ALL T, fuel, "
+             "root, price-db text and flags, and for any two choices of (glob enumeration order, layout history of every hash map "
+             "after every entry, after every posting) the command returns the same standard output / the same failure; "
+             "..._file_run: that result is the order-free composition bookFileRun (= CmdText.run / runX / runEval on the delivered "
+             "entries after a successful load: bookFileRun_ok_...). The recursion fuel of the loader model is not an input either: once "
+             "the load does not run out of it, every larger fuel gives the same callbacks, status and command result (C13_file_fuel, "
+             "C13_book_file_fuel; C11_terminates_load bounds the fuel needed by the number of readable files). Non-vacuity: a ledger in three files (include with a glob "
+             "answering [b, a], an alias declared in a and used in the root; visiting b first is rejected), a book-keeping error "
+             "in an included file, a loader error behind accepted entries. "
+             "VISECA AS A WHOLE COMMAND (Lemmas/C13FrontViseca.lean): visecaCmd = compile the rules (Extractor::try_from), cut the "
+             "statement TEXT into lines, the parse_entry loop, extract on every record, the conversion, to_double_entry and writeln! "
+             "with the precisions of format.commodity - standard output and ending. C13_import_viseca: the same output and ending "
+             "for every order of the field maps of all AND-elements (which are read twice: compiling and matching) on statements "
+             "every record of which leaves at most one interacting field per element (the hypothesis of C13_import_partial / "
+             "C17_and_order_partial on the records the parser model cuts out of the text; static sufficient condition "
+             "C13_import_viseca_static: no element pairs payee with category) when the faulty fields of every element agree on "
+             "their error (vacuous for rules that compile: C13_import_viseca_compiles; whether rules compile never depends on the "
+             "order: C13_import_compile_order); format.commodity may be laid out in any order (C13_import_viseca_commodity). "
+             "C13_import_viseca_false / C13_import_viseca_witness: the unconditional statement is FALSE (F14) - a two-record "
+             "statement text and the rule {category: (?P<payee>Service) stations, payee: ^Service$} print Expenses:Car under the "
+             "payee Service in one order and ! Expenses:Unknown under Europe Gas AT in the other (both printed ledgers are proved "
+             "literally: f14_prints_category_first / f14_prints_payee_first); C13_import_viseca_error_false: nor is the error of a "
+             "configuration with two different faults in one element (F32 on the model). "
+             "FORMAT FROM THE FILE, CSV FROM THE CELLS (Lemmas/C13FrontFormatCsv.lean): C13_format_file (File::open + "
+             "recursive(false): no order parameter, depends on that one file only), C13_import_csv_cells (field map, extractor, "
+             "records decoded by okane's own cell decoders Cells.cellEnv, to_double_entry, printing: same output and ending for "
+             "every order of the rules' field maps when their keys are distinct and the faulty fields of every element agree), "
+             "C13_import_csv_commodity; C13_import_csv_fields / C13_fieldMap_order (Lemmas/C13FrontCsvFields.lean): the third hash "
+             "map of the CSV import, format.fields (iterated by FieldMap::try_new), in ANY order gives the same FieldMap up to the "
+             "layout of its lookup table, or the same ImportError variant, and the whole command writes the same text - so the "
+             "order of format.fields reaches neither acceptance, nor the error variant, nor the output; what is left of F32 there "
+             "(which of two unparsable templates the message names) is below the model's error values, which carry no text. "
+             "NOT proved: the camt importer as a whole command from the XML text, the YAML / CSV-crate / XML decoding in front of "
+             "the importers, the decoding of the statement bytes "
+             "(DecodeReaderBytes), re-layouts at a finer grain than one posting inside the relayout model "
+             "(the congruence theorems themselves hold per operation), that the file-system model is the operating system "
+             "(C11's subject), and that the model is the binary. "
              "Whole-command determinism of format, accounts, balance (raw, -X up-to-date / historical, date ranges), register, "
              "primitive eval / flatten / format and import (csv, camt053, viseca) is OBSERVED on the real binary: every "
              "generated input x command is run in N fresh processes (quick 6, thorough 24) and stdout, stderr and exit "
@@ -100,7 +145,13 @@ CLAIM = {
              "zeros) and the sign of zero of a printed decimal - the report layer of the model is exact rationals - and the "
              "annotated source snippet below the title of a diagnostic (C14's subject); `format`, `import`, `primitive "
              "flatten/format` have no text model here."),
-    "note": ("the command-level theorems compose the validated models (process, Ledger::balance / eval, price repository, "
+    "note": ("the file-level definitions of Lemmas/C13Front*.lean (gate / bookFile / accountsFile: loader callbacks + book-keeping + "
+             "the loader's status, in the order of report::process; visecaCmd / csvCmd / printLoop: importer + the to_double_entry / "
+             "writeln! loop of ImportCmd::run, which stops after what was already written; formatFile) are glue written from "
+             "core/src/report/book_keeping.rs, core/src/report.rs and cli/src/cmd.rs over models that other checks validate against "
+             "the binary (loader: C11; parser: C05/C06/C14; CmdText: the stream cmdtext-model-vs-binary of this check; importers: "
+             "C15-C18); the glue itself is not run against the binary by a stream of this check. "
+             "the command-level theorems compose the validated models (process, Ledger::balance / eval, price repository, "
              "report printing) through glue definitions written from cli/src/cmd.rs and core/src/report.rs "
              "(processScr / processScr2, cmdText, registerReport, accountsStep, balanceXLines, evalLine, balanceXOut, "
              "evalOut); the glue is exercised by the stream `cmdtext-model-vs-binary` through the executable twins of "
@@ -182,7 +233,42 @@ THEOREMS = [NS + t for t in [
     "import_full_false", "rulesPerm_reorder", "import_deterministic", "csv_inert", "csv_oneInteracting",
     "csv_extract_field_order", "csvImport_field_order", "csvImport_deterministic", "camt_oneInteracting",
     "camtImport_field_order", "camtImport_field_order_static",
-]]
+]] + [NS + t for t in [
+    # from file contents: loader + parser in front of process (Lemmas/C13Front.lean, restated at the end of Props/C13.lean)
+    "C13_load_file", "C13_sort_paths", "C13_balance_file", "C13_balance_file_run", "C13_register_file",
+    "C13_register_file_run", "C13_accounts_file", "C13_accounts_file_run", "C13_balance_exchange_file",
+    "C13_balance_exchange_file_run", "C13_eval_file", "C13_eval_file_run", "C13_balance_file_schema", "C13_file_fuel", "C13_book_file_fuel",
+]] + ["Okane.C13Front." + t for t in [
+    "pathLe_antisymm", "sortPaths_perm_eq", "loadInclude_glob_order", "loadEntriesWith_glob_order", "loadFile_glob_order",
+    "globReorder_reorderGlob", "load_reorderGlob", "load_text_glob_order", "gate_ok", "gate_load_err", "gate_rel",
+    "bookFile_det", "bookFile_run", "finish_rel", "balanceFile_det", "balanceFile_run", "registerFile_det",
+    "registerFile_run", "balanceXFile_det", "balanceXFile_run", "evalFile_det", "evalFile_run", "accountsFile_det",
+    "accountsFile_run", "bookFileRun_ok_balance", "bookFileRun_ok_register", "bookFileRun_ok_balanceX",
+    "bookFileRun_ok_eval", "andThen_congr_fuel", "loadListWith_fuel", "loadInclude_fuel", "loadEntriesWith_fuel",
+    "loadFile_fuel", "load_fuel", "bookFileRun_fuel", "accountsFileRun_fuel",
+]] + [NS + t for t in [
+    # the Viseca importer as a whole command (Lemmas/C13FrontViseca.lean, restated at the end of Props/C13.lean)
+    "C13_import_viseca", "C13_import_viseca_perm", "C13_import_viseca_compiles", "C13_import_compile_order",
+    "C13_import_viseca_static", "C13_import_viseca_commodity", "C13_import_viseca_false", "C13_import_viseca_witness",
+    "C13_import_viseca_error_false",
+]] + ["Okane.C13FV." + t for t in [
+    "checkRules_eq", "forM_ok_iff", "forM_eq_fail", "forM_perm", "forM_isOk_perm", "forM_pointwise", "andCheck_perm",
+    "andCheck_isOk_perm", "checkRules_perm", "checkRules_isOk_perm", "rulesFaultsAgree_of_ok", "faultsAgree_of_le_one",
+    "entryToTxn_field_order", "importLoop_field_order", "visecaImport_field_order", "printLoop_ok", "visecaCmd_field_order",
+    "visecaCmd_deterministic", "visecaCmd_commodity_order", "viseca_inert", "viseca_oneInteracting_static",
+    "f14_prints_category_first", "f14_prints_payee_first", "visecaCmd_full_false", "visecaCmd_error_false",
+    "statementOneInteracting_of_check", "exCfgV_one", "exCfgV_compiles",
+]] + [NS + t for t in [
+    # format from the file, import of a CSV file from its cells (Lemmas/C13FrontFormatCsv.lean, end of Props/C13.lean)
+    "C13_format_file", "C13_format_file_local", "C13_import_csv_cells", "C13_import_csv_commodity",
+]] + ["Okane.C13FC." + t for t in [
+    "formatFile_deterministic", "formatFile_local", "formatFile_text", "csvCmd_field_order", "csvCmd_deterministic",
+    "csvCmd_commodity_order", "exCfgC_keys", "exCfgC_compiles",
+    # the order of format.fields (Lemmas/C13FrontCsvFields.lean)
+    "queryKey_same", "renderTemplate_same", "resolve_same", "extract_same", "amount_same", "readRow_same", "baseTxn_same",
+    "buildTxn_same", "csvRow_same", "csvRows_same", "resolvePos_cases", "resolveAll_ok", "resolveAll_bad", "foldl_max_perm",
+    "tryNew_perm", "csvImport_fields_order", "csvCmd_fields_order",
+]] + [NS + t for t in ["C13_import_csv_fields", "C13_fieldMap_order"]]
 
 SITES_FILE = os.path.join(VERIF, "corpus", "C13", "iteration_sites.json")
 CORPUS = os.path.join(VERIF, "corpus", "C13")
